@@ -233,15 +233,11 @@ def circuit_is_isomorphic(circuit1, circuit2):
         return True
 
     def edge_match(e1, e2):
-        # Get the first key of the edge dict, normally only 1 key per edge unless we have 2 nodes that are connected by
-        #  2 edges
-        val1 = next(iter(e1))
-        val2 = next(iter(e2))
-
-        # Check for the control_target attribute
-        if e1[val1]["control_target"] != e2[val2]["control_target"]:
-            return False
-        return True
+        # Two nodes can be connected by two edges (two consecutive two-qubit operations on the same pair of registers):
+        # compare the control_target attributes of all of them
+        roles1 = sorted(str(attr["control_target"]) for attr in e1.values())
+        roles2 = sorted(str(attr["control_target"]) for attr in e2.values())
+        return roles1 == roles2
 
     return is_isomorphic(
         circuit1.dag, circuit2.dag, node_match=node_match, edge_match=edge_match
@@ -291,10 +287,16 @@ def add_control_target_to_dag(circuit):
         next_node = edge[1]
         label = edge[2]
 
+        source_role = None
         while next_node not in circuit.node_dict["Output"]:
             op = circuit.dag.nodes[next_node]["op"]
             control_target = _create_edge_control_target_attr(op, reg_type, register)
-            circuit.dag[node][next_node][label]["control_target"] = control_target
+            # the role of this register at both ends of the edge, so that parallel edges keep track of which wire is which
+            circuit.dag[node][next_node][label]["control_target"] = (
+                source_role,
+                control_target,
+            )
+            source_role = control_target
 
             node = next_node
             out_edges = circuit.dag.out_edges(nbunch=node, keys=True)
